@@ -68,6 +68,10 @@ func newNamer() *namer {
 		ImageSampleBaseClampToEdgeFunc,
 		DynamicBufferOffsetsPrefix,
 		ImageStorageLoadScalarWrapper,
+		// spellings the writer emits for wrapped unary ops, float-to-int casts
+		// and the modf/frexp result structs
+		"naga_neg", "naga_abs", "naga_f2i32", "naga_f2u32", "naga_f2i64", "naga_f2u64",
+		"_naga_modf_result_f32", "_naga_frexp_result_f32",
 	}
 
 	for _, name := range helperNames {
